@@ -616,7 +616,7 @@ func init() {
 		concurrentSection("C07"),
 	)
 	core.Register(&core.Monitor{
-		ID: "C07", Level: "exploration", Plan: plan, Run: run, Terminates: true, CaseTimeout: 60e9, MaxParallel: 16,
+		ID: "C07", Level: "exploration", Plan: plan, Run: run, Terminates: true, CaseTimeout: 30e9, MaxParallel: 16,
 		Rule: "mutations (byte/token deletion, duplication, transposition, hostile octets, directive soup, truncation) of zone renderings with $GENERATE/$INCLUDE, token soup, 36 crafted texts (100 KiB tokens/comments/strings, unterminated quote/parenthesis/escape, NUL, CRLF, $GENERATE at and over 65536 steps, int64-overflowing ranges, nested $GENERATE, bad modifiers, $INCLUDE with absolute/relative/.. paths, self- and mutually including files, an included file whose reads fail), " +
 			"every octet-prefix of a plain record line of every type (RDATA ending early at end of input, open parenthesis/quote/backslash after each token), surplus tokens after complete RDATA, a closing parenthesis that closes nothing after every blank of the line and an unclosed one at its end (must be reported, whatever the type), arbitrary tokens after every type mnemonic incl. types without presentation format; each with a read error injected at a chosen offset, x {includes off/on} x {no FS / recording FS} x 5 origins x default TTL; oracle: no panic/hang, nothing returned and Err() stable after parsing stops, errors carry line:col (and the file), <= 65536 records per $GENERATE, nested $GENERATE rejected, " +
 			"zero Open calls on the recording FS and zero openat(2) under the canary directory in the strace log of the worker while includes are disabled, <= 8 opens for self-including files, TotalAlloc delta within 4 KiB/octet + per-record allowance; the same operations called from 8 goroutines at once give the results they give alone; non-trivial = distinct accepted text",
